@@ -442,9 +442,9 @@ func sortStrings(s []string) {
 func c01N(tier string) (sys, rnd int) {
 	sys = len(c01Systematic())
 	if tier == "thorough" {
-		return sys * len(c01Positions), 400000
+		return sys * len(c01Positions), 8000000
 	}
-	return sys * 2, 30000
+	return sys * 2, 400000
 }
 
 func init() {
